@@ -18,10 +18,15 @@ import subprocess
 import sys
 import time
 
+sys.path.insert(0, os.path.dirname(os.path.abspath(__file__)))
+import leafcore  # noqa: E402
+
 ROOT = '/verif'
 REPO = os.environ.get('VERIF_REPO', '/repo')   # experiments may point the checks at a scratch copy of the repository
-COQ = os.path.join(ROOT, 'coq')
-DRIVERS = os.path.join(ROOT, 'ocaml', '_build')
+WORK = leafcore.WORK                           # /verif, or a private copy of coq/ + ocaml/ for an experiment (see leafcore.work_root)
+COQ = os.path.join(WORK, 'coq')
+OCAML = os.path.join(WORK, 'ocaml')
+DRIVERS = os.path.join(OCAML, '_build')
 GUARD = 'EVENTPP_VERIF'
 MASK = (1 << 64) - 1
 
@@ -163,7 +168,8 @@ def load_known():
 # --------------------------------------------------------------------------- Coq
 
 def ensure_coq_makefile():
-    sh('make coqproject', cwd=ROOT)
+    if WORK == ROOT:
+        sh('make coqproject', cwd=ROOT)
     mk = os.path.join(COQ, 'Makefile.coq')
     if not os.path.exists(mk) or os.path.getmtime(mk) < os.path.getmtime(os.path.join(COQ, '_CoqProject')):
         sh('coq_makefile -f _CoqProject -o Makefile.coq', cwd=COQ)
@@ -199,7 +205,7 @@ def coq_prove(ctx, files, timeout=1500, leaves=None):
     # when a proof then fails, the checks fall back to the extracted SPEC as oracle
     ex = ' '.join(f.replace('.v', '.vo') for f in sorted(os.listdir(COQ)) if f.startswith('Extract') and f.endswith('.v'))
     sh('timeout %d make -f Makefile.coq -k -j16 %s' % (timeout, ex), cwd=COQ, timeout=timeout + 60)
-    sh('make -C %s' % os.path.join(ROOT, 'ocaml'), timeout=600)
+    sh('make -C %s' % OCAML, timeout=600)
     targets = ' '.join(f.replace('.v', '.vo') for f in files)
     rc, out, err = sh('timeout %d make -f Makefile.coq -k -j16 %s' % (timeout, targets), cwd=COQ, timeout=timeout + 60)
     if rc != 0:
